@@ -9,7 +9,9 @@ Added in round 4: every walk over / write to the shared table of per-level datab
 lock (C08.h); tiles stored by a concurrent request between the batch load and the existence check
 are loaded afterwards (C08.i).
 Added in round 5: renderd front end and back end use different tile lock ids (C08.j); the record is
-appended before the index entry is set (C08.k, shared C06.c)."""
+appended before the index entry is set (C08.k, shared C06.c).
+Added in round 6: the race loser loads with the dimensions of the request (C08.l); lock file names
+separate the coordinates (C08.m); the age is read again under the lock (C08.n, shared C13.a)."""
 import ast
 import re
 
